@@ -593,7 +593,15 @@ impl Cx {
       _ => {}
     }
     const EXTREMES: [i64; 6] = [T_MIN - 1, T_MIN, T_MAX, T_MAX + 1, i64::MIN, i64::MAX];
-    match digit(4) {
+    match digit(5) {
+      4 => {
+        // both issuance claims present: nbf is the one the conversion uses, so an unrepresentable nbf is not rescued by a valid iat
+        let v = *rng.pick(&[T_MIN - 1, T_MAX + 1, i64::MIN, i64::MAX]);
+        claims.insert("nbf".into(), json!(v));
+        claims.insert("iat".into(), json!(1_600_000_000i64 + rng.below(1000) as i64));
+        desc.push(format!("nbf={}+iat=valid", v));
+        must_reject.push("nbf-out-of-range");
+      }
       1 => {
         let v = *rng.pick(&EXTREMES);
         claims.insert("exp".into(), json!(v));
@@ -690,7 +698,7 @@ fn main() {
         cx.tampered_credential(&mut rng, idx);
       }
     }
-    for idx in 0..72u64 {
+    for idx in 0..90u64 {
       k += 1;
       if args.mine(k) {
         for _ in 0..4 {
